@@ -180,6 +180,8 @@ Definition hello_creates (nb : N) (h : hello) : option (N * N * N) :=   (* kind,
 
 Definition new_sessions (pd dg : digest) : list sd := filter (fun x => negb (live pd x.(d_sid))) dg.(g_sessions).
 
+Definition is_coded_error (m : smsg) : bool := match m with SError code => negb (N.eqb code 0) | _ => false end.
+
 Definition step_C01 (nb : N) (pd : digest) (o : op) (ob : obs) (dg : digest) : bool :=
   (* a session appears only through a hello whose credentials verify (or as a virtual session of an internal client) *)
   forallb (fun x =>
@@ -200,14 +202,23 @@ Definition step_C01 (nb : N) (pd : digest) (o : op) (ob : obs) (dg : digest) : b
                            | _ => false
                            end
                        | _ => true end) (all_msgs ob)
-  (* before a successful hello every other request is answered with an error and changes nothing *)
+  (* before a successful hello every other request is answered with an error and changes nothing;
+     "an error" is an error message that says what failed: it carries a (non-empty) code.  An error message
+     without its error member is projected to SOther, one with an empty code to SError 0. *)
   && match o with
-     | OHello _ _ | OHelloAborted _ _ _ => true
+     | OHello c _ =>
+         (* a hello that does not give the connection a session is a refusal: whatever the connection is
+            sent in that step is an error with a code *)
+         match sd_of_conn pd c, sd_of_conn dg c with
+         | None, None => forallb (fun e => negb (N.eqb (fst e) c) || is_coded_error (snd e)) (all_msgs ob)
+         | _, _ => true
+         end
+     | OHelloAborted _ _ _ => true
      | _ => match op_conn o with
             | Some c => match sd_of_conn pd c with
                         | Some _ => true
                         | None => digest_match dg pd &&
-                                  forallb (fun e => N.eqb (fst e) c && match snd e with SError _ => true | _ => false end) (all_msgs ob)
+                                  forallb (fun e => N.eqb (fst e) c && is_coded_error (snd e)) (all_msgs ob)
                         end
             | None => true end
      end.
